@@ -205,7 +205,7 @@ def make_world(prm, resp_ms=3):
     return w
 
 
-START, STOP, SLEEP, WAITX, CLOSE, DROPH, WAITR, POKE = 10, 11, 12, 13, 14, 15, 16, 17
+START, STOP, SLEEP, WAITX, CLOSE, DROPH, WAITR, POKE, PHASE, WAITRP = 10, 11, 12, 13, 14, 15, 16, 17, 18, 19
 
 
 def strm_case(prm, transfers, rprog, cprog, cap_p=64, cap_b=8, seed=1, permille=0, max_us=0, suberrs=(), fam="",
@@ -306,6 +306,40 @@ def runs_of(ev):
     return runs
 
 
+def run_params(c, ev):
+    """stream parameters of every successful start, in order (a poke of the controller program
+    takes effect at the next start)"""
+    m = c.meta
+    per_start = []
+    cur = m["prm"]
+    for op in m["cprog"]:
+        if op[0] == "params":
+            cur = op[1]
+        elif op[0] == START:
+            per_start.append(cur)
+    codes = []
+    for i, e in enumerate(ev):
+        if e[0] == 0 and e[1] == 20:
+            j = next((j for j in range(i + 1, len(ev)) if ev[j][0] == 0 and ev[j][1] == 21), None)
+            codes.append(ev[j][2] if j is not None else -1)
+    return [per_start[k] if k < len(per_start) else m["prm"] for k, code in enumerate(codes) if code == 0]
+
+
+def segments_runs(c, ev):
+    """[(params, transfers of one iteration, complete?)] over all runs: each run consumes the
+    script where the previous one stopped (a loop only stops between iterations)."""
+    tr = c.meta["transfers"]
+    prms = run_params(c, ev)
+    out = []
+    pos = 0
+    for rn, prm in zip([r for r in runs_of(ev) if not r.get("stray")], prms):
+        polls = sum(1 for i in rn["events"] if ev[i][1] == K_POLL)
+        end = min(len(tr), pos + polls)
+        out += [(prm, s, ok) for s, ok in segments(prm, tr[pos:end])]
+        pos = end
+    return out
+
+
 def labels_of_trace(c, po):
     """The model's labels for a recorded trace.  The cancellation check of the loop (a try_recv on a
     std mpsc channel) and the moment the controller's send registers in that channel are not
@@ -331,6 +365,7 @@ def labels_of_trace(c, po):
     stop_calls = []                         # event index of stop calls with a running loop, in order
     recv_count = 0
     pending_call = None
+    sb_index = None
     for i, e in enumerate(ev):
         r, k, a, b = e
         if r == 0:
@@ -359,8 +394,11 @@ def labels_of_trace(c, po):
                 own[i] = "TL (RRecv %d)" % (0 if b == 0 else 1)
                 if b == 0:
                     recv_count += 1
+            elif k == 30:
+                sb_index = a             # a payload kept earlier is about to be sent back
             elif k == K_TRY_SEND and a == 1:
-                own[i] = "TSendBack %d %d" % (recv_count - 1, b)
+                own[i] = "TSendBack %d %d" % (recv_count - 1 if sb_index is None else sb_index, b)
+                sb_index = None
             elif k == K_RECEIVER_DROP and a == 0:
                 own[i] = "TL RDrop"
         else:
@@ -439,10 +477,11 @@ def predicate(c, out):
     if po is None:
         return "harness output unreadable: %r" % (_clip(out),)
     ev, items = po["ev"], po["items"]
-    prm = m["prm"]
-    multi = any(op[0] == "params" for op in m["cprog"])
     # (a) start / stop / close / drop return without error or panic
     for k, r in enumerate(po["res"]):
+        if r == 107:
+            return ("controller operation %d failed with Poisoned: the streaming loop thread is gone (it panicked), "
+                    "frames are no longer delivered" % k)
         if r != 0 and not (r == 109 and m.get("expect_busy")):
             return "controller operation %d failed with code %d" % (k, r)
     if po["waits_timed_out"]:
@@ -455,33 +494,27 @@ def predicate(c, out):
     if any(f != 1 for f in po["held"]):
         return "a payload held by the receiver changed after it was received"
     # (d) every Ok item is exactly one frame the device sent, in order, no duplicates
-    if not multi:
-        segs = segments(prm, m["transfers"])
-        views = [decode_frame(prm, s) if ok else None for s, ok in segs]
-        k = 0
-        delivered = []
-        for it in items:
-            if it[0] != 0:
-                continue
-            while k < len(views) and not (views[k] is not None and views[k][0] == it[1:]):
-                k += 1
-            if k == len(views):
-                return ("delivered payload id=%d valid=%d is not (the next) complete frame the device sent: "
-                        "a mixture of frames, a duplicate or out of order" % (it[1], it[3]))
-            delivered.append(k)
+    segs = segments_runs(c, ev)
+    views = [decode_frame(q, sg) if ok else None for q, sg, ok in segs]
+    k = 0
+    delivered = []
+    for it in items:
+        if it[0] != 0:
+            continue
+        while k < len(views) and not (views[k] is not None and views[k][0] == it[1:]):
             k += 1
-        # (e) everything regular is delivered when the channel always had room
-        sends = [e for e in ev if e[0] >= 100 and e[1] == K_TRY_SEND and e[2] == 0]
-        suberr = bool(m["suberrs"])
-        if all(e[3] == 0 for e in sends) and not suberr and m.get("drains"):
-            consumed = len(m["transfers"]) - po["remaining"]
-            pos = 0
-            for ix, (s, ok) in enumerate(segs):
-                pos += len(s)
-                if pos > consumed:
-                    break
-                if views[ix] is not None and views[ix][1] and ix not in delivered:
-                    return "frame %d (well-formed, channel never full) was consumed but not delivered" % ix
+        if k == len(views):
+            return ("delivered payload id=%d valid=%d is not (the next) complete frame the device sent: "
+                    "a mixture of frames, a duplicate or out of order" % (it[1], it[3]))
+        delivered.append(k)
+        k += 1
+    # (e) everything regular is delivered when the channel always had room
+    sends = [e for e in ev if e[0] >= 100 and e[1] == K_TRY_SEND and e[2] == 0]
+    suberr = bool(m["suberrs"])
+    if all(e[3] == 0 for e in sends) and not suberr and m.get("drains"):
+        for ix in range(len(segs)):
+            if views[ix] is not None and views[ix][1] and ix not in delivered:
+                return "frame %d (well-formed, channel never full) was consumed but not delivered" % ix
     # (f) a loop works only between its start and the return of its stop; when the stop returns
     # its pool is gone; what a pool drop reaps is exactly what was submitted and not completed
     for rn in runs_of(ev):
@@ -552,6 +585,9 @@ P1 = Params(64, 40, 8, 3, 5, 3)
 P2 = Params(52, 36, 0, 0, 24, 0)
 P3 = Params(56, 36, 12, 1, 0, 7)
 P4 = Params(52, 32, 0, 0, 0, 0)
+P_S = Params(52, 36, 8, 2, 0, 0)
+P_L = Params(52, 36, 16, 3, 4, 0)
+P_F = Params(52, 36, 8, 2, 5, 3)
 PARAMS = [P0, P1, P2, P3]
 
 
@@ -714,6 +750,21 @@ def boundary_cases():
     add(P0, six[:12] + sum([good_frame(P1, b) for b in range(7, 10)], []),
         cprog=[(START,), (WAITX, 15), (SLEEP, 300), (STOP,), ("params", P1), (START,), (WAITX, 0), (SLEEP, 300), (STOP,)],
         drains=False, note="restart with other stream parameters")
+    # restart with another payload geometry; payloads kept from before the restart are handed back
+    # to the new loop (their buffers are shorter / longer than / equal to the new maximum)
+    for pa, pb, tag in ((P_S, P_L, "larger"), (P_L, P_S, "smaller"), (P_S, P_F, "larger final transfers"),
+                        (P_S, P_S, "same"), (P4, P_L, "from empty payload")):
+        for fresh in (0, 1, 3):
+            for nkeep in (2, 1):
+                fa = sum([good_frame(pa, b) for b in (1, 2)], [])
+                fb = sum([good_frame(pb, b, rng_pt) for b, rng_pt in zip(range(11, 17), [PT_IMAGE, PT_CHUNK, PT_IMAGE, PT_EXT, PT_IMAGE, PT_CHUNK])], [])
+                tr = fa + ["T"] * 40 + fb
+                c = add(pa, tr,
+                        rprog=[(1, 2, 0), (6, 1, 0), (5, nkeep, 0), (7, 0, 0), (1, 100000, fresh)],
+                        cprog=[(START,), (WAITX, len(fb) + 25), (STOP,), ("params", pb), (PHASE,), (WAITRP, 1), (START,),
+                               (WAITX, 0), (SLEEP, 300), (STOP,)],
+                        cap_p=256, drains=True,
+                        note="restart with a %s geometry, %d kept payload(s) handed back to the new loop, then mode %d" % (tag, nkeep, fresh))
     return cs
 
 
@@ -770,10 +821,22 @@ def random_case(rng, sched):
         cprog = [(START,), (WAITX, rng.below(n + 1)), rng.choice([(CLOSE,), (DROPH,)])]
     else:
         cprog = [(START,), (SLEEP, rng.below(300)), (STOP,), (START,), (SLEEP, rng.below(300)), (STOP,), (START,), (WAITX, 0), (STOP,)]
+    prm_first = prm
+    if rng.chance(1, 6):
+        # geometry change at a restart, kept payloads handed back afterwards
+        pa = rng.choice([P_S, P_L, P_F, P0, P4])
+        prm_first = pa
+        fa = sum([good_frame(pa, 900 + b) for b in range(rng.range(1, 3))], [])
+        tr = fa + ["T"] * 40 + tr
+        nk = rng.range(1, 3)
+        rprog = [(1, len(fa) // len(pa.slots()), 0), (6, 1, 0), (5, nk, 0), (7, 0, 0), (1, 100000, rng.below(4))]
+        cprog = [(START,), (WAITX, len(tr) - len(fa) - 15), (STOP,), ("params", prm), (PHASE,), (WAITRP, 1), (START,),
+                 (WAITX, 0), (SLEEP, 200), (STOP,)]
+        cap_p = 256
     suberrs = []
     if rng.chance(1, 8):
         suberrs = [(rng.below(3 * len(prm.slots())), rng.choice([0, 3, 6, 8]))]
-    c = strm_case(prm, tr, rprog, cprog, cap_p=cap_p, cap_b=cap_b, seed=rng.next() & 0xFFFFFFFF,
+    c = strm_case(prm_first, tr, rprog, cprog, cap_p=cap_p, cap_b=cap_b, seed=rng.next() & 0xFFFFFFFF,
                   permille=rng.choice([0, 100, 300, 600]) if sched else 0, max_us=rng.choice([0, 50, 300]) if sched else 0,
                   suberrs=suberrs, fam="random", note="random")
     c.meta["drains"] = cprog is RUN_ALL and rprog in (EAGER, EAGER_HOLD, EAGER_DROP, EAGER_ALT) and cap_p == 64
